@@ -309,6 +309,12 @@ def main(rep, tier, seed):
     rng = F.Rng(seed)
     rows, terr, rewritten = regenerate()
     info = F.standard_proof_phase(rep, PROP)
+    # the executable model does not depend on the proofs: build it even if a proof broke
+    okr, rlog = F.coq_make("theories/Sample/TypesRun.vo")
+    if not okr:
+        rep.violation("model_build", {"kind": "the executable model does not compile against the regenerated table",
+                                      "log_tail": rlog[-3000:]}, no_input=True)
+        return finish(rep, info, tier, 0, 0, 0, {}, [], [])
     bins = {}
     for dbg in (True, False):
         ok, blog, path = F.harness_build("c15", release=not dbg)
@@ -354,7 +360,7 @@ def main(rep, tier, seed):
                 if ob and ob[0] == 8:
                     hist[f"{pname}:panics"] = hist.get(f"{pname}:panics", 0) + 1
                 msg = verdict(row, dbg, op, ob)
-                if msg and len(verdict_bad) < 3:
+                if msg and len(verdict_bad) < 3 and idx not in [v[0] for v in verdict_bad]:
                     verdict_bad.append((idx, op, ob, msg))
         bad_total += len(bad)
         for idx in bad[:3]:
